@@ -67,6 +67,16 @@ class FlowWorld(World):
             return n
         self.sock.send = send
 
+    strbuf_limit = None   # if set: waitress.buffers.STRBUF_LIMIT for the duration of the run
+
+    def run(self):
+        if self.strbuf_limit is None:
+            return World.run(self)
+        import waitress.buffers as wbuffers
+        from harness.fake_threading import patched
+        with patched(wbuffers, STRBUF_LIMIT=self.strbuf_limit):
+            return World.run(self)
+
     def _make_channel_class(self):
         Base = World._make_channel_class(self)
         from waitress.channel import ClientDisconnected
@@ -133,18 +143,22 @@ class FlowWorld(World):
         rl = g("requests_lock")
         rowner = rl.owner.name if rl.owner is not None else None
         pend = 0
+        kinds = ""
         for b in g("outbufs"):
             try:
                 pend += b.__len__()
             except Exception:
                 pass
+            inner = getattr(b, "buf", None)
+            kinds += "s" if inner is None and hasattr(b, "strbuf") else (
+                "t" if type(inner).__name__ == "TempfileBasedBuffer" else ("b" if inner is not None else "f"))
         return {
             "t": g("total_outbufs_len"), "c": bool(g("connected")), "wc": bool(g("will_close")),
             "cwf": bool(g("close_when_flushed")), "n": len(g("requests")),
             "ol": "-" if owner is None else ("i" if owner == "io" else "w"),
             "rl": "-" if rowner is None else ("i" if rowner == "io" else "w"),
             "pl": bool(self.trigger.pulled), "im": CHAN_FD in self.map,
-            "park": len(cond.waiters) > 0, "p": pend,
+            "park": len(cond.waiters) > 0, "p": pend, "k": kinds,
             "rd": bool(self.sock.client_reading), "gn": bool(self.sock.client_gone),
         }
 
@@ -979,9 +993,11 @@ def build_world(scn, schedule=(), policy=None, max_steps=None):
         else:
             script.append((st[0],))
     plan = [tuple(x) if isinstance(x, list) else x for x in scn.get("plan", [])]
-    return FlowWorld(make_app(reqs), script, schedule=schedule, policy=policy, adj_kw=dict(scn["adj"]),
-                     n_workers=scn.get("workers", 1), send_plan=plan, granularity=scn.get("gran", "locks"),
-                     max_steps=max_steps or scn.get("max_steps", 1500))
+    w = FlowWorld(make_app(reqs), script, schedule=schedule, policy=policy, adj_kw=dict(scn["adj"]),
+                  n_workers=scn.get("workers", 1), send_plan=plan, granularity=scn.get("gran", "locks"),
+                  max_steps=max_steps or scn.get("max_steps", 1500), sndbuf=scn.get("sndbuf", 1 << 16))
+    w.strbuf_limit = scn.get("strbuf_limit")
+    return w
 
 
 def policy_of(spec):
@@ -1026,9 +1042,33 @@ def monitors(world, verdict):
         worst = (sn["p"] - hw - max(last, cur), sn["p"], max(last, cur))
     if worst is not None:
         out.append(("bound", None, "bytes held %d > high_watermark %d + last write %d" % (worst[1], hw, worst[2])))
+    # (a') accounting across buffer representations: whenever nobody holds outbuf_lock and the
+    #      connection is open, total_outbufs_len == sum(len(outbuf)) == bytes appended - bytes sent
+    appended = sent = 0
+    acct = None
+    for i, (th, kind, detail) in enumerate(ev):
+        if kind == "append":
+            appended += detail
+        elif kind == "wire":
+            sent += len(detail) // 2
+        elif kind == "sock_send" and detail == 0 and acct is None:
+            sn0 = sched.snaps.get(i)
+            if sn0 is not None and sn0["t"] > 0:
+                acct = ("empty-send", "send() called with an EMPTY chunk while total_outbufs_len = %d: an output buffer claims bytes it cannot deliver" % sn0["t"])
+        sn = sched.snaps.get(i)
+        if sn is not None and sn["c"] and sn["ol"] == "-" and acct is None:
+            if not (sn["t"] == sn["p"] == appended - sent):
+                acct = ("accounting", "total_outbufs_len=%d, the outbufs hold %d bytes, appended-sent=%d (outbuf lock free, connection open)" % (
+                    sn["t"], sn["p"], appended - sent))
+    if acct is not None:
+        out.append((acct[0], None, acct[1]))
     fin = getattr(world, "snap_final", None)
     if fin is None:
         return out
+    # (e) nothing is left behind: no task, client reading, connection open, nobody parked -> everything was sent
+    if fin["c"] and fin["n"] == 0 and fin["rd"] and not fin["gn"] and not fin["park"] and fin["ol"] == "-" \
+            and (fin["t"] != 0 or fin["p"] != 0) and (verdict == "blocked" or (verdict == "overrun" and _no_progress(world))):
+        out.append(("left-over", None, "the run ended with total_outbufs_len=%d and %d bytes in the outbufs although the client reads and no task runs" % (fin["t"], fin["p"])))
     # (b) release / abort at the end of the run
     if fin["park"]:
         progress_stopped = verdict == "blocked" or (verdict == "overrun" and _no_progress(world))
